@@ -1,11 +1,11 @@
 #!/bin/bash
 # sweep.sh <tier> <seed...> : runs every check at the given seeds, evidence into a scratch dir
 TIER=$1; shift
-cd /verif
+cd "$(dirname "$0")/.."
 for S in "$@"; do
   for i in 01 02 03 04 05 06 07 08 09 10 11 12 13 14 15 16 17 18 19 20; do
     start=$(date +%s)
-    out=$(VERIF_SEED=$S VERIF_DIR=/tmp/sweep_verif ./vcheck C$i --tier $TIER 2>&1); rc=$?
+    out=$(VERIF_SEED=$S VERIF_DIR=/tmp/sweep_verif_$$ ./vcheck C$i --tier $TIER 2>&1); rc=$?
     echo "seed=$S C$i rc=$rc $(( $(date +%s) - start ))s :: $(echo "$out" | grep -E '^C[0-9]+ tier' | cut -c1-160) $(echo "$out" | grep -E 'signature:|INCONCLUSIVE' | sort | uniq -c | head -5 | tr '\n' ';')"
   done
 done
